@@ -1,5 +1,6 @@
 import WzVerif.Driver.Proto
 import WzVerif.Model.LimitedStream
+import WzVerif.Model.InputStreamReq
 import WzVerif.Driver.PyPrelude
 namespace Wz.Driver.C09
 open Wz Wz.Proto Wz.LS
@@ -19,22 +20,76 @@ def optNat (ds : List Char) : Option (Option Nat) :=
 
 /-- `r5` read(5), `a` read(), `l` readline(), `l3` readline(3), `L` readlines(), `L9` readlines(9),
 `i4` readinto(bytearray(4)), `n` next(), `x` exhaust() -/
-def parseOps (s : String) : Option (List Op) :=
+def parseOp (t : String) : Option Op :=
+  match t.toList with
+  | ['a'] => some Op.readall
+  | ['n'] => some Op.next
+  | ['x'] => some Op.exhaust
+  | 'r' :: ds => (String.ofList ds).toNat?.map Op.read
+  | 'i' :: ds => (String.ofList ds).toNat?.map Op.readinto
+  | 'l' :: ds => (optNat ds).map Op.readline
+  | 'L' :: ds => (optNat ds).map Op.readlines
+  | _ => none
+
+/-- an operation, or an observer / the `for` loop: `t` tell(), `e` is_exhausted, `R` readable(),
+`I` `for line in stream` -/
+inductive Tok where
+  | op (o : Op)
+  | tell | exhausted | readable | iter
+
+def parseToks (s : String) : Option (List Tok) :=
   if s == "[]" then some [] else
   (s.splitOn ",").mapM fun t =>
-    match t.toList with
-    | ['a'] => some Op.readall
-    | ['n'] => some Op.next
-    | ['x'] => some Op.exhaust
-    | 'r' :: ds => (String.ofList ds).toNat?.map Op.read
-    | 'i' :: ds => (String.ofList ds).toNat?.map Op.readinto
-    | 'l' :: ds => (optNat ds).map Op.readline
-    | 'L' :: ds => (optNat ds).map Op.readlines
-    | _ => none
+    match t with
+    | "t" => some Tok.tell
+    | "e" => some Tok.exhausted
+    | "R" => some Tok.readable
+    | "I" => some Tok.iter
+    | _ => (parseOp t).map Tok.op
+
+def parseOpsSep (sep : String) (s : String) : Option (List Op) :=
+  if s == "[]" || s == "" then some [] else (s.splitOn sep).mapM parseOp
 
 def showRes : LRes → String
   | .ok bs => "ok:" ++ ",".intercalate (bs.map hex)
   | .error e => "EXC:" ++ e
+
+/-- `for line in stream`: the lines, then the exception that ended the loop -/
+def showIter (rs : List LRes) : String :=
+  let lines := rs.filterMap fun r => match r with | .ok [l] => some (hex l) | _ => none
+  let last := match rs.getLast? with | some (.error e) => e | _ => "NO-END"
+  "iter:" ++ ",".intercalate lines ++ "!" ++ last
+
+def runToks (s : St) : List Tok → List String × St
+  | [] => ([], s)
+  | .op o :: rest =>
+    let (r, s') := runOp s o
+    let (rs, s'') := runToks s' rest
+    (showRes r :: rs, s'')
+  | .tell :: rest => let (rs, s') := runToks s rest; (("val:" ++ toString (tell s)) :: rs, s')
+  | .exhausted :: rest => let (rs, s') := runToks s rest; (("val:" ++ outBool (isExhausted s)) :: rs, s')
+  | .readable :: rest => let (rs, s') := runToks s rest; (("val:" ++ outBool (readable s)) :: rs, s')
+  | .iter :: rest =>
+    let (r, s') := iterAll s
+    let (rs, s'') := runToks s' rest
+    (showIter r :: rs, s'')
+
+/-- `Sr5` request.stream.read(5) · `D10:` get_data(cache=True, parse_form_data=False) ·
+`D11:r9+r9` the same with parse_form_data=True and a parser that issues read(9), read(9) ·
+`F:a` request.form with a parser that issues read() · `C` close() -/
+def parseROp (t : String) : Option RB.ROp :=
+  match t.toList with
+  | ['C'] => some .close
+  | 'S' :: rest => (parseOp (String.ofList rest)).map .stream
+  | 'F' :: ':' :: rest => (parseOpsSep "+" (String.ofList rest)).map .form
+  | 'D' :: c :: p :: ':' :: rest =>
+    match boolArg (String.singleton c), boolArg (String.singleton p), parseOpsSep "+" (String.ofList rest) with
+    | some c, some p, some ops => some (.getData c p ops)
+    | _, _, _ => none
+  | _ => none
+
+def parseHist (s : String) : Option (List RB.ROp) :=
+  if s == "[]" then some [] else (s.splitOn ";").mapM parseROp
 
 def showChoice : Choice → String
   | .tooLarge => "EXC:RequestEntityTooLarge"
@@ -44,14 +99,22 @@ def showChoice : Choice → String
 
 def handle : Handler
   | "ls.run", [data, script, limit, isMax, hasRi, ops] =>
-    match unhex data, parseScript script, natArg limit, boolArg isMax, boolArg hasRi, parseOps ops with
+    match unhex data, parseScript script, natArg limit, boolArg isMax, boolArg hasRi, parseToks ops with
     | some data, some script, some limit, some isMax, some hasRi, some ops =>
       let s0 : St := { limit := limit, isMax := isMax, hasReadinto := hasRi, u := { data := data, script := script } }
-      let (rs, s) := runOps s0 ops
+      let (rs, s) := runToks s0 ops
       let log := s.u.log.reverse.map fun (c, n) => toString c ++ "+" ++ toString n
-      some (";".intercalate (rs.map showRes) ++ "|" ++ toString s.u.taken.length ++ "|" ++ toString s.pos
+      some (";".intercalate rs ++ "|" ++ toString s.u.taken.length ++ "|" ++ toString s.pos
         ++ "|" ++ ",".intercalate log)
     | _, _, _, _, _, _ => some badArgs
+  | "req.run", [cl, chunked, term, max, hasRi, wantForm, data, script, hist] =>
+    match optArg unhexStr cl, boolArg chunked, boolArg term, optArg natArg max, boolArg hasRi, boolArg wantForm,
+      unhex data, parseScript script, parseHist hist with
+    | some cl, some chunked, some term, some max, some hasRi, some wantForm, some data, some script, some hist =>
+      let (rs, r) := RB.runROps (RB.freshReq cl chunked term max hasRi wantForm data script) hist
+      let log := r.input.log.reverse.map fun (c, n) => toString c ++ "+" ++ toString n
+      some (";".intercalate (rs.map showRes) ++ "|" ++ toString (RB.consumed r) ++ "|" ++ ",".intercalate log)
+    | _, _, _, _, _, _, _, _, _ => some badArgs
   | "ls.choice", [cl, chunked, term, max, safe] =>
     match optArg unhexStr cl, boolArg chunked, boolArg term, optArg natArg max, boolArg safe with
     | some cl, some chunked, some term, some max, some safe =>
